@@ -64,14 +64,14 @@ def probe_class():
                 return ('f', self.data, self.no, x)
 
             @weak_lru_cache(maxsize=2)
-            def g(self, x, k=1):
-                return ('g', self.data, self.no, x, k)
+            def g(self, x, k=1, m=1):
+                return ('g', self.data, self.no, x, k, m)
 
         _PROBE['cls'] = Probe
     return _PROBE['cls']
 
 
-PROBE_CALLS = [('f', (), {}), ('f', (1,), {}), ('f', (), {'x': 1}), ('g', (0,), {}), ('g', (0, 2), {}), ('g', (0,), {'k': 2}), ('g', (5,), {})]
+PROBE_CALLS = [('f', (), {}), ('f', (1,), {}), ('f', (), {'x': 1}), ('g', (0,), {}), ('g', (0, 2), {}), ('g', (0,), {'k': 2}), ('g', (5,), {}), ('g', (0,), {'m': 2})]  # the last two g calls: the same value under different names
 
 
 # ------------------------------------------------------------------ real classes
@@ -141,7 +141,7 @@ def fast_conversion(transitions, *, minimal_residence=0):
 REAL_CALLS = {
     'T': [('matrix', (), {}), ('states_next', (), {}), ('states_prev', (), {})],
     'J': [('matrix', (), {}), ('counter', (), {}), ('jump_diffusivity', (3,), {}), ('jump_diffusivity', (), {'dimensions': 1}), ('collective', (), {}), ('collective', (3.5,), {}), ('to_graph', (), {}), ('to_graph', (), {'max_e_act': 'MID'}), ('to_graph', (), {'min_e_act': 'MID'}), ('split', (2,), {}), ('split', (3,), {})],
-    'M': [('tracer_diffusivity', (), {'dimensions': 3}), ('tracer_diffusivity', (), {'dimensions': 1}), ('particle_density', (), {}), ('attempt_frequency', (), {}), ('tracer_conductivity', (), {'z_ion': 2, 'dimensions': 3}), ('haven_ratio', (), {})],
+    'M': [('tracer_diffusivity', (), {'dimensions': 3}), ('tracer_diffusivity', (), {'dimensions': 1}), ('particle_density', (), {}), ('attempt_frequency', (), {}), ('tracer_conductivity', (), {'z_ion': 2, 'dimensions': 3}), ('tracer_conductivity', (), {'dimensions': 2, 'z_ion': 3}), ('haven_ratio', (), {})],
 }
 
 
@@ -161,7 +161,7 @@ def discovered_calls(cls_key):
         calls = [c for c in calls if not (c[0] == 'split' and c[1] == (2,)) and not (c[0] == 'to_graph' and 'min_e_act' in c[2])]
     listed = {c[0] for c in calls}
     for name, attr in sorted(vars(cls).items()):
-        if name in listed or impl.lru_of(attr) is None:
+        if name in listed or not impl.is_memoised(attr):
             continue
         try:
             params = list(inspect.signature(attr).parameters.values())[1:]
@@ -230,7 +230,9 @@ def all_caches(kind):
     for cls in classes:
         for name, attr in sorted(vars(cls).items()):
             lru = impl.lru_of(attr)
-            if lru is not None:
+            if lru is not None or impl.is_memoised(attr):
+                # lru is None when the decorator of the tree under test is not built on functools.lru_cache: the methods
+                # are still explored, only the cache statistics are then not part of the canonical state
                 out.append((cls.__name__ + '.' + name, lru))
     return out
 
@@ -252,7 +254,7 @@ class World:
 def make_build(kind, nslots, cls=None):
     caches = all_caches(kind)
     if not caches:
-        raise HarnessError('no weak_lru_cache closures found (seam lost)')
+        raise HarnessError('no memoised methods found (seam lost)')
 
     if not _PROBE.get('frozen'):
         # move everything allocated so far (pymatgen, pandas, ...) to the permanent generation: a full
@@ -265,7 +267,8 @@ def make_build(kind, nslots, cls=None):
 
     def build(hist):
         for _, lru in caches:
-            lru.cache_clear()
+            if lru is not None:
+                lru.cache_clear()
         gc.collect()
         w = World(kind, nslots)
         for ei, ev in enumerate(hist):
@@ -395,7 +398,7 @@ def make_build(kind, nslots, cls=None):
     def canon(w):
         # objects made by copying are NOT merged with freshly constructed ones: a copy carries whatever per-instance
         # state the memoisation layer may have attached to the original
-        return (tuple(w.variant), tuple(w.origin), frozenset(w.called), tuple((n, tuple(l.cache_info())) for n, l in caches), tuple(e[0] for e in w.errors))
+        return (tuple(w.variant), tuple(w.origin), frozenset(w.called), tuple((n, tuple(l.cache_info()) if l is not None else None) for n, l in caches), tuple(e[0] for e in w.errors))
 
     return build, canon
 
@@ -430,7 +433,7 @@ def run_scripted(res):
     import io
 
     for variant in (0, 1):
-        for l in [lru for _, lru in all_caches('real')]:
+        for l in [lru for _, lru in all_caches('real') if lru is not None]:
             l.cache_clear()
         j = new_real('J', variant, 0, {})
         plots = [n for n in dir(type(j)) if n.startswith('plot_')]
